@@ -226,13 +226,18 @@ func ks(n int) []int {
 }
 
 // runOffsetAPI checks the offset laws through Query on one history.
-func runOffsetAPI(srv *lrsrv.Srv, h hist, sec *vh.Section, only *probe, verbose bool) {
+func runOffsetAPI(srv *lrsrv.Srv, drv *vh.Driver, h hist, sec *vh.Section, only *probe, verbose bool) {
 	if tooManyHangs() {
 		return
 	}
 	w := setup(srv, h)
 	if w == nil {
 		return
+	}
+	if verbose {
+		for i := range w.Parts {
+			fmt.Printf("partition %d: records per chunk %v\n", i, w.Counts(i))
+		}
 	}
 	q := w.Query(h.Where, h.Range)
 	qr := &qrunner{srv: srv, rpc: h.Rpc}
@@ -279,7 +284,11 @@ func runOffsetAPI(srv *lrsrv.Srv, h hist, sec *vh.Section, only *probe, verbose 
 	}
 	// positions after i events, taken from pages of the forward read
 	posAfter := map[int]string{0: "head", n: "tail"}
-	for _, i := range []int{1, n / 3, n / 2, n - 1} {
+	at := []int{1, n / 3, n / 2, n - 1}
+	if only != nil {
+		at = append(at, only.Start) // a recorded probe may start anywhere
+	}
+	for _, i := range at {
 		if i <= 0 || i >= n {
 			continue
 		}
@@ -301,7 +310,12 @@ func runOffsetAPI(srv *lrsrv.Srv, h hist, sec *vh.Section, only *probe, verbose 
 			return
 		}
 		i, k := pr.Start, pr.K
-		res.Dist(sec, fmt.Sprintf("start=%s k=%s", startName(i, n), kName(k, n)))
+		dk := k
+		if pr.Kind == "back-and-forth" && dk > 0 {
+			dk = -dk // this probe moves backward by k
+		}
+		res.Dist(sec, fmt.Sprintf("start=%s k=%s", startName(i, n), kName(dk, n)))
+		res.Dist(sec, "probe="+pr.Kind)
 		key := ""
 		if n >= 3 && k != 0 {
 			key = fmt.Sprint(h.Init, h.Where, h.Range, pr)
@@ -352,10 +366,64 @@ func runOffsetAPI(srv *lrsrv.Srv, h hist, sec *vh.Section, only *probe, verbose 
 			if err != nil || !cmp(got, want) {
 				fail("offset-not-inverse", "moving by +k and then by -k does not lead back to the same next event", pr, fmt.Sprint(got, err), fmt.Sprint(lbls(want)))
 			}
+		case "back-and-forth":
+			// the reverse order: -k first, the position exported right after the backward walk (Limit 0, backend path),
+			// then a plain read from that position must deliver the event the cursor stands on, fwd[i-k]
+			if k < 0 {
+				k = -k
+			}
+			if k == 0 || i-k < 0 || i > n || !exact {
+				return
+			}
+			q2 := &qrunner{srv: srv}
+			_, nx, err, hung := q2.query(api.QueryRequest{Query: q, Pos: posAfter[i], Offset: -k, Limit: 0})
+			if hung {
+				atomic.AddInt32(&hangs, 1)
+				aborted = true
+			}
+			if hung || err != nil {
+				fail("hang", "a query with a negative offset and limit 0 did not return a position", pr, fmt.Sprint(err, hung), "a position")
+				return
+			}
+			got, _, err, hung := qr.query(api.QueryRequest{Query: q, Pos: nx.Pos, Offset: 0, Limit: 1})
+			if hung {
+				atomic.AddInt32(&hangs, 1)
+				aborted = true
+				fail("hang", "a query from an exported position did not return", pr, "no answer in 15 s", "a page")
+				return
+			}
+			want := fwd[i-k : i-k+1]
+			if verbose {
+				fmt.Printf("back-and-forth start=%d k=%d from=%s exported=%s got=%v want=%v err=%v\n", i, k, w.PosToModel(posAfter[i]), w.PosToModel(nx.Pos), got, lbls(want), err)
+			}
+			if err == nil && cmp(got, want) {
+				return
+			}
+			// kind: the client that follows the exported position loses fwd[i-k] (it gets a later event or nothing)
+			kind := "exported-position-wrong"
+			if err == nil && (len(got) == 0 || indexOf(fwd, got[0]) > i-k) {
+				kind = "exported-position-skips-event"
+			}
+			// MODEL: the same two requests
+			mPos, mEv := modelBackAndForth(drv, w, h, w.PosToModel(posAfter[i]), k, verbose)
+			eq := err == nil && mEv == rdh.IntsStr(got) && mPos == w.PosToModel(nx.Pos)
+			finding := ""
+			inClass, variant := f48Class(w, nx.Pos, want[0].Lbl)
+			// RANGE queries read through the in-repo partition.JIterator, which is not the finding's site
+			if eq && kind == "exported-position-skips-event" && inClass && h.Range == nil {
+				finding = "F48"
+				res.Dist(sec, fmt.Sprintf("F48 %s parts=%d where=%v", variant, len(w.Parts), h.Where))
+			}
+			res.SpecFail(vh.SpecFailure{Section: "offset-api", Kind: kind, Input: map[string]interface{}{"hist": h, "probe": pr},
+				Impl: fmt.Sprintf("exported %s, then read %v %v", w.PosToModel(nx.Pos), got, errStr(err)), Spec: fmt.Sprint(lbls(want)),
+				Model: fmt.Sprintf("exported %s, then read %s", mPos, mEv), ImplEqModel: eq, Finding: finding,
+				What: "a position exported (Limit 0) right after a negative offset does not name the event the cursor stands on: a client that reads from it does not get the event k steps before the start"})
 		}
 	}
 	if only != nil {
-		run(*only)
+		if _, ok := posAfter[only.Start]; ok {
+			run(*only)
+		}
 		return
 	}
 	for _, i := range starts {
@@ -369,8 +437,98 @@ func runOffsetAPI(srv *lrsrv.Srv, h hist, sec *vh.Section, only *probe, verbose 
 			if exact && k > 0 && i+k <= n && i < n {
 				run(probe{Kind: "there-and-back", Start: i, K: k})
 			}
+			// "-k and then read": the position exported right after the backward walk (finding F48 class)
+			if exact && k > 0 && i-k >= 0 {
+				run(probe{Kind: "back-and-forth", Start: i, K: k})
+			}
 		}
 	}
+}
+
+func errStr(err error) string {
+	if err == nil {
+		return ""
+	}
+	return "err=" + err.Error()
+}
+
+func indexOf(f []rdh.Ev, lbl int) int {
+	for i, e := range f {
+		if e.Lbl == lbl {
+			return i
+		}
+	}
+	return -1
+}
+
+func field(ans, key string) string {
+	for _, f := range strings.Fields(ans) {
+		if strings.HasPrefix(f, key+"=") {
+			return f[len(key)+1:]
+		}
+	}
+	return "?"
+}
+
+// modelBackAndForth asks the Lean query-loop model the two requests of a back-and-forth probe: the position it
+// exports for {pos, Offset -k, Limit 0} and the page {that position, Limit 1}.
+func modelBackAndForth(drv *vh.Driver, w *rdh.World, h hist, pos string, k int, verbose bool) (mPos, mEv string) {
+	if drv == nil {
+		return "no-driver", "no-driver"
+	}
+	ask := func(l string) string {
+		a := drv.Ask(l)
+		if verbose {
+			fmt.Printf("   model: %-70.70s -> %s\n", l, a)
+		}
+		return a
+	}
+	wh, mn, mx, rg, tr := modelArgs(h)
+	ask("reset")
+	var perm []string
+	for i := range w.Parts {
+		ask(w.Layout(i, tr))
+		perm = append(perm, fmt.Sprint(i))
+	}
+	ps := "-"
+	if len(perm) > 1 {
+		ps = strings.Join(perm, ",") // no cross-partition ties here, so the leaf order does not matter
+	}
+	ask("q.reset")
+	a1 := ask(fmt.Sprintf("q.page 0 1 all %s %s %s %s %s 0 %d 0 %s", wh, mn, mx, rg, pos, -k, ps))
+	mPos = field(a1, "pos")
+	a2 := ask(fmt.Sprintf("q.page 0 1 all %s %s %s %s %s 1 0 0 %s", wh, mn, mx, rg, mPos, ps))
+	return mPos, field(a2, "ev")
+}
+
+// f48Class is the class predicate of finding F48 (the probe is a back-and-forth one: a position exported with
+// Limit 0 right after a negative offset): the event the cursor stands on after the backward walk (label lbl) is the
+// LAST record of its chunk — the first record a backward Get delivers in a chunk whose iterator was positioned at
+// the chunk's record count, i.e. the chunk was entered from the following chunk or the walk started at the chunk's
+// end (tail) — and the exported position of its partition is (that chunk, number of records of that chunk), one
+// record too far. variant: "successor" = the chunk is followed by another chunk, "tail" = it is the last chunk.
+func f48Class(w *rdh.World, exported string, lbl int) (in bool, variant string) {
+	p := rdh.PartOf(lbl)
+	if p < 0 || p >= len(w.Parts) {
+		return false, ""
+	}
+	ck, idx, ok := w.Locate(p, lbl%100000)
+	if !ok || idx != w.Counts(p)[ck]-1 {
+		return false, ""
+	}
+	pps, ok := w.ParsePosText(exported)
+	if !ok {
+		return false, ""
+	}
+	for _, pp := range pps {
+		if pp.Part == p && pp.Chunk == ck && pp.Idx == pp.Count {
+			if pp.Last {
+				return true, "tail"
+			}
+			return true, "successor"
+		}
+	}
+	return false, ""
 }
 
 type probe struct {
@@ -501,11 +659,11 @@ func sectionOffsetAPI(rng *vh.Rng) {
 	for i := 0; i < n; i++ {
 		cases = append(cases, apiCase{Hist: genHist(rng, sizes[i%len(sizes)], i)})
 	}
-	byServer(len(cases), sizes, func(srv *lrsrv.Srv, _ *vh.Driver, idx []int) {
+	byServer(len(cases), sizes, func(srv *lrsrv.Srv, drv *vh.Driver, idx []int) {
 		for _, i := range idx {
-			runOffsetAPI(srv, cases[i].Hist, sec, cases[i].Probe, false)
+			runOffsetAPI(srv, drv, cases[i].Hist, sec, cases[i].Probe, false)
 		}
-	}, func(i int) int { return cases[i].Hist.ChunkSize }, false, true)
+	}, func(i int) int { return cases[i].Hist.ChunkSize }, true, true)
 	res.Done(sec)
 }
 
@@ -971,7 +1129,7 @@ func replay(path string) {
 		var c apiCase
 		json.Unmarshal(rp.Input, &c)
 		srv, drv := start(c.Hist.ChunkSize, true)
-		runOffsetAPI(srv, c.Hist, sec, c.Probe, true)
+		runOffsetAPI(srv, drv, c.Hist, sec, c.Probe, true)
 		drv.Close()
 		srv.Stop()
 		os.RemoveAll(srv.Dir)
